@@ -431,8 +431,9 @@ private:
                            , std::ptrdiff_t y
                            )
     {
+        // y is a row of the image; the destination view starts at row _top_left.y and has _dim.y rows
         if(  y >= this->_settings._top_left.y
-          && y <  this->_settings._dim.y
+          && y <  this->_settings._top_left.y + this->_settings._dim.y
           )
         {
             typename Buffer::const_iterator beg = buf.begin() + this->_settings._top_left.x;
@@ -440,7 +441,7 @@ private:
 
             std::copy( beg
                      , end
-                     , view.row_begin( y )
+                     , view.row_begin( y - this->_settings._top_left.y )
                      );
         }
     }
@@ -461,7 +462,8 @@ private:
         std::size_t stream_pos = this->_info._offset;
 
         using Buf_type = std::vector<rgba8_pixel_t>;
-        Buf_type buf( this->_settings._dim.x );
+        // the run-length data always describe whole rows of the image, whatever region is requested
+        Buf_type buf( this->_info._width );
         Buf_type::iterator dst_it  = buf.begin();
         Buf_type::iterator dst_end = buf.end();
 
@@ -472,12 +474,13 @@ private:
         // The origin of a top-down DIB is also the bottom left corner of the bitmap image,
         // but in this case the bottom left corner is the first pixel of the last row of bitmap data.
         // - "Programming Windows", 5th Ed. by Charles Petzold explains Windows docs ambiguities.
+        std::ptrdiff_t const image_height = this->_info._height > 0 ? this->_info._height : -this->_info._height;
         std::ptrdiff_t ybeg = 0;
-        std::ptrdiff_t yend = this->_settings._dim.y;
+        std::ptrdiff_t yend = image_height;
         std::ptrdiff_t yinc = 1;
         if( this->_info._height > 0 )
         {
-            ybeg = this->_settings._dim.y - 1;
+            ybeg = image_height - 1;
             yend = -1;
             yinc = -1;
         }
